@@ -5,11 +5,12 @@ is inlined into its callers (rules/inline.py); the fingerprints only serve to re
 (rules/rename.py)."""
 import os, sys
 sys.path.insert(0, os.path.dirname(os.path.dirname(os.path.abspath(__file__))))
-from rules import facts, rename
+from rules import desugar, facts, rename
 
 names = set()
 fps = {}
 for c, fb in facts.load_facts(list(facts.CONFIGS)).items():
+    desugar.apply(fb)
     d = {}
     for r in fb["fns"]:
         if r["kind"] in ("Fn", "AssocFn"):
